@@ -139,6 +139,31 @@ type c20Case struct {
 	Extra  *c20WfExt `json:"wf,omitempty"`
 }
 
+// c20WfExt: how the workflow side is built (the lowered form is in Ops)
+type c20WfExt struct {
+	Nodes  []c20WfNode `json:"nodes"`
+	EndIn  []c20WfIn   `json:"endIn"`
+	Branch []c20Op     `json:"branches,omitempty"`
+	Static string      `json:"static,omitempty"` // node key that gets a static value on field path Y.Z
+	// calls after the first Compile
+	Recompiles int `json:"recompiles"`
+}
+
+type c20WfNode struct {
+	Key string    `json:"key"`
+	PT  bool      `json:"pt,omitempty"`
+	In  string    `json:"in,omitempty"`
+	Out string    `json:"out,omitempty"`
+	Dyn string    `json:"dyn,omitempty"`
+	Ins []c20WfIn `json:"ins"`
+}
+
+type c20WfIn struct {
+	From   string `json:"from"`
+	Kind   string `json:"kind"` // input | dep | indirect
+	Mapped bool   `json:"mapped,omitempty"`
+}
+
 // ---- generic registries ----
 
 type c20Builder interface {
@@ -258,7 +283,7 @@ func c20CompileOpts(op *c20Op) []compose.GraphCompileOption {
 
 // c20Classifier turns returned errors into ok|fresh|stored|compiled using only identity and
 // the exported sentinel.
-type c20Classifier struct{ first error }
+type c20Classifier struct{ seen []error }
 
 func (c *c20Classifier) class(err error, panicked bool) string {
 	if panicked {
@@ -270,16 +295,18 @@ func (c *c20Classifier) class(err error, panicked bool) string {
 	if errors.Is(err, compose.ErrGraphCompiled) || errors.Is(err, compose.ErrChainCompiled) {
 		return "compiled"
 	}
-	if c.first != nil && err == c.first {
-		return "stored"
+	for _, e := range c.seen {
+		if e == err { // the very same error value came back: it was kept by the builder
+			return "stored"
+		}
 	}
 	return "fresh"
 }
 
-// remember: Add* errors are stored by the builder; Compile's own errors are not.
+// remember every error value returned so far (compared by identity only)
 func (c *c20Classifier) remember(err error) {
-	if c.first == nil && err != nil && !errors.Is(err, compose.ErrGraphCompiled) {
-		c.first = err
+	if err != nil && !errors.Is(err, compose.ErrGraphCompiled) && reflect.TypeOf(err).Comparable() {
+		c.seen = append(c.seen, err)
 	}
 }
 
@@ -398,9 +425,8 @@ func c20ExecGraph(c *c20Case) (obs c20Obs, last c20RunFn) {
 		if panicked {
 			obs.Notes = append(obs.Notes, fmt.Sprintf("call %d panicked: %v", i, pv))
 		}
-		if !isCompile {
-			cl.remember(err)
-		}
+		_ = isCompile
+		cl.remember(err)
 	}
 	if first != nil {
 		cls, d := c20RunOnce(first, in)
